@@ -5,7 +5,7 @@ import re
 
 from .facts import (Facts, AnalysisBroken, walk_expr, walk_all_exprs, walk_stmts, show, strip_casts, strip_copies,
                     member_path, strip_conv)
-from .genrules import GenModel, is_call, field_chain
+from .genrules import GenModel, is_call, field_chain, direct_exprs
 from .props_c02 import Multi
 from . import cmpeval
 
@@ -126,6 +126,49 @@ def c11(rep, tier):
         leave = True
     A.check(ok1 and leave, 'apply_macros: one rewrite per pass', 'the rewrite block sets the change flag and the priority-bin loop is left when it is set',
             'several rewrites can happen within one counted pass', W(am, mm.inner or mm.budget, mm.facts))
+    # the rewrite is not itself inside a further loop (that would rewrite several times per counted pass)
+    def loops_around(root, target, acc=()):
+        from .facts import stmt_children
+        if root is None:
+            return None
+        if any(x is target for x in walk_all_exprs(root)) is False:
+            return None
+        ss, es = stmt_children(root)
+        for c in ss:
+            r = loops_around(c, target, acc + ((root,) if root['k'] in ('for', 'while', 'do', 'rangefor') else ()))
+            if r is not None:
+                return r
+        return acc + ((root,) if root['k'] in ('for', 'while', 'do', 'rangefor') else ())
+    extra_loops = []
+    for mu in inloop:
+        la = loops_around(mm.budget['body'], mu) or ()
+        extra_loops.extend(l for l in la if l is not mm.inner)
+    A.check(not extra_loops, 'apply_macros: the rewrite is not repeated inside a pass', 'the splice is enclosed only by the budget loop and the priority-bin loop',
+            'the splice sits in a further loop (line %s): one counted pass can rewrite many times, the budget no longer bounds the number of steps' % (
+                extra_loops[0]['loc'][0] if extra_loops else ''), W(am, extra_loops[0] if extra_loops else None, mm.facts))
+    # the budget loop is left only by its bound or by "nothing changed in this pass", tested after the bins were tried
+    exits = []
+    body_stmts = mm.budget['body']['s'] if mm.budget['body']['k'] == 'block' else [mm.budget['body']]
+    inner_pos = [i for i, st in enumerate(body_stmts) if st is mm.inner or any(x is mm.inner for x in walk_stmts(st))]
+    for i, st in enumerate(body_stmts):
+        if st is mm.inner or any(x is mm.inner for x in walk_stmts(st)):
+            # breaks inside the bin loop leave the bin loop only; returns are exits
+            exits.extend((i, x, None) for x in walk_stmts(st) if x['k'] == 'return')
+            continue
+        for x in walk_stmts(st):
+            if x['k'] in ('break', 'return'):
+                exits.append((i, x, st))
+    bad_exits = []
+    for i, x, st in exits:
+        okx = False
+        if st is not None and st['k'] == 'if' and flag is not None and inner_pos and i > inner_pos[-1]:
+            c2 = strip_casts(st['c'])
+            okx = c2.get('k') == 'un' and c2['op'] == '!' and strip_casts(c2['e']).get('d') == flag.get('d')
+        if not okx:
+            bad_exits.append(x)
+    A.check(not bad_exits, 'apply_macros: exits of the budget loop', 'left only when a whole pass changed nothing (tested after the bins were tried) or when the budget is used up',
+            'the loop can be left at line %s without "nothing changed in this pass": an unfinished expansion is passed on without the too-many-substitutions error'
+            % (bad_exits[0]['loc'][0] if bad_exits else ''), W(am, bad_exits[0] if bad_exits else None, mm.facts))
     calls = [e for e in walk_all_exprs(mm.budget['body']) if is_call(e, 'get_replacement')]
     A.check(len(calls) == 1 and block is not None and any(x is calls[0] for x in walk_all_exprs(block)), 'apply_macros: one instantiation per rewrite',
             'get_replacement is called once, inside the rewrite block', '%d get_replacement call(s)' % len(calls), W(am, None, mm.facts))
@@ -202,6 +245,24 @@ def forwarded_errors_rule(R, pf, parse):
                         b = strip_casts(x['base'])
                         if b.get('k') == 'ref':
                             merged.add(b.get('d'))
+    # no way out of parse() between a stage and the merge
+    from .props_c02 import Multi
+    M2 = Multi(pf)
+    g = M2.cfg(parse)
+    merge_nodes = []
+    for st in walk_stmts(parse['body']):
+        if st['k'] == 'rangefor':
+            if any(is_call(e, '::push_back') and field_chain(e['obj'])[1][-1:] == ['errors'] for e in walk_all_exprs(st['body'])):
+                merge_nodes.extend(n for n in g.nodes if n.stmt is st and n.kind == 'cond')
+    stage_calls = [ev for ev in g.calls() if (ev.e.get('callee') or '') in ('Theo::scan', 'Theo::extract_macros', 'Theo::apply_macros')]
+    early = []
+    for rn in g.returns():
+        after_stage = any(sc.node.id in g.dom[rn.id] for sc in stage_calls)
+        if after_stage and not any(mn.id in g.dom[rn.id] for mn in merge_nodes):
+            early.append(rn)
+    R.check(not early and bool(merge_nodes), 'parse: no return before the merge', 'every return after a stage is dominated by the merge of the stage errors',
+            'parse() can return at line %s after a stage ran but before its errors were merged: the tree is incorrect with an empty error list'
+            % (early[0].stmt['loc'][0] if early else '?'), W(parse, early[0].stmt if early else None, pf))
     for v in stage_vars:
         R.check(v['d'] in merged, 'parse: %s.errors' % v['name'], 'merged into the syntax-error list', 'the errors of stage %s (%s) are dropped' % (v['name'], v['cty']),
                 W(parse, v, pf))
@@ -280,6 +341,24 @@ def c10(rep, tier):
     calls = [e for e in walk_all_exprs(mm.am['body']) if is_call(e, 'get_replacement')]
     cv = counter_of(mm.budget)
     okd = len(calls) == 1 and cv is not None and strip_casts(calls[0]['args'][1]).get('d') == cv['d']
+    # ... and the instantiation happens once per counted pass: it is enclosed by the budget loop and the priority-bin loop only
+    if calls:
+        def loops_around(root, target, acc=()):
+            from .facts import stmt_children
+            if root is None or not any(x is target for x in walk_all_exprs(root)):
+                return None
+            ss, es = stmt_children(root)
+            here = acc + ((root,) if root['k'] in ('for', 'while', 'do', 'rangefor') else ())
+            for c in ss:
+                r = loops_around(c, target, here)
+                if r is not None:
+                    return r
+            return here
+        la = loops_around(mm.budget['body'], calls[0]) or ()
+        extra = [l for l in la if l is not mm.inner]
+        D.check(not extra, 'apply_macros: one instantiation per pass number', 'get_replacement is enclosed by the budget loop and the bin loop only',
+                'get_replacement runs inside a further loop (line %s): several expansion steps share one pass number and hence their temporaries' % (extra[0]['loc'][0] if extra else ''),
+                W(mm.am, calls[0], mm.facts))
     D.check(okd, 'apply_macros: pass argument', 'get_replacement(..., %s)' % (cv['name'] if cv else '?'), 'pass argument is %s' % (show(calls[0]['args'][1]) if calls else None),
             W(mm.am, calls[0] if calls else None, mm.facts))
 
@@ -456,6 +535,7 @@ def c09(rep, tier):
         s = show(e)
         okcc = okcc or ('.text' in s and 'requirement' in s or s.count('.text') == 2)
     F.check(okcc, 'check_constraint: compares text', 'found[0].text != requirement.text -> reject', 'constraint no longer compares token text', W(cc, None, mm.facts))
+    c09_detector_grammar(rep, mm)
     G = rep.rule('C09.g', 'a detector scans start positions ascending and returns the first accepted, constraint-satisfying match', floor=1)
     det = mm.facts.fn('MacroDetector::detect')
     okg = False
@@ -550,12 +630,30 @@ def c12(rep, tier):
                     inside = any(x is e for s in c['s'] for x in walk_all_exprs(s))
                     if inside:
                         conflict_cases = [c2 for c2 in sw['cases'] if c2 is not c]
-                        rec = all(any(is_call(x, '::push_back') for s in c2['s'] for x in walk_all_exprs(s)) for c2 in conflict_cases)
+                        rec = all(any(is_call(x, '::push_back') for x in direct_exprs({'k': 'block', 's': c2['s']})) for c2 in conflict_cases)
                         labs = set(l.get('name') for c2 in conflict_cases for l in c2['labels'] if isinstance(l, dict))
                         okw = subj == cell + '.t' and 'default' in c['labels'] and rec and 'REDUCE' in labs
                         need = {'REDUCE'} if 'place_shift' in f.get('q', '') else {'REDUCE', 'SHIFT'}
             D.check(okw, '%s: %s = ...' % (f['q'].split('/')[-1], cell), 'default branch of switch(%s.t); the other cases record a conflict' % cell,
                     'table cell written without conflict check', W(f, e, mm.facts))
+    Ff = rep.rule('C12.f', 'every macro definition gets a detector whose tables are generated from its own pattern', floor=1)
+    gd = mm.facts.fn('get_detectors')
+    rep.analysed(gd)
+    pushes = [e for e in walk_all_exprs(gd['body']) if (is_call(e, '::push_back') or is_call(e, '::emplace_back')) and 'MacroDetector' in (e['obj'].get('cty') or '')]
+    loopvars = [st['var'] for st in walk_stmts(gd['body']) if st['k'] == 'rangefor']
+    okf = bool(pushes) and bool(loopvars)
+    whyf = 'no detector is created per definition'
+    for e in pushes:
+        a = strip_conv(e['args'][0]) if e['args'] else None
+        src = None
+        if a is not None and a.get('k') == 'construct' and a.get('rec') == 'MacroDetector' and a['args']:
+            src = strip_conv(a['args'][0])
+        elif is_call(e, '::emplace_back') and a is not None:
+            src = a
+        if not (src is not None and src.get('k') == 'ref' and any(src.get('d') == lv['d'] for lv in loopvars)):
+            okf = False
+            whyf = 'a detector is pushed that was not built from the definition being visited (%s): its parse tables (and conflict verdict) come from another pattern' % show(e)[:80]
+    Ff.check(okf, 'get_detectors', '%d push(es), each MacroDetector(def) of the visited definition' % len(pushes), whyf, W(gd, None, mm.facts))
     E = rep.rule('C12.e', 'in prefix mode an item whose look-ahead is the end marker places its action in every column; container keys '
                           'of the LR construction are discriminating strict weak orders', floor=4)
     okcol = False
@@ -624,3 +722,100 @@ def c06e(rep, tier):
                     '; '.join(why), W(f, None, kf))
         except cmpeval.Unsupported as ex:
             E.unknown('operator<(BreakPoint)', str(ex))
+
+
+# ============================================================================= detector grammar (C09.h)
+def detector_grammar(mm):
+    """productions of the pattern grammar built in MacroDetector's constructor: {NT: [[sym,...],...]}; terminals are
+    Token::Type names, non-terminals the names of the local Symbol variables"""
+    ctor = mm.facts.fn('MacroDetector::MacroDetector')
+    prods = {}
+
+    def syms(e):
+        e = strip_conv(e)
+        if e is None:
+            raise AnalysisBroken('detector grammar: empty symbol')
+        if e.get('k') == 'call' and e.get('op') == ',':
+            out = []
+            for a in ([e['obj']] if e.get('obj') is not None else []) + list(e['args']):
+                out.extend(syms(a))
+            return out
+        if e.get('k') == 'call' and e.get('op') == '()' and e['args']:
+            t = strip_casts(e['args'][0])
+            if t.get('k') == 'ref' and t.get('dk') == 'enumerator':
+                return [t['name']]
+        if e.get('k') == 'call' and (e.get('callee') or '').endswith('Symbol::Terminal') and e['args']:
+            t = strip_casts(e['args'][0])
+            if t.get('k') == 'ref' and t.get('dk') == 'enumerator':
+                return [t['name']]
+        if e.get('k') == 'ref' and e.get('dk') == 'var':
+            return ['<%s>' % e['name']]
+        if e.get('k') == 'construct' and len(e.get('args') or []) == 1:
+            return syms(e['args'][0])
+        raise AnalysisBroken('detector grammar: cannot read symbol %s' % show(e))
+    for e in walk_all_exprs(ctor['body']):
+        if e.get('k') == 'call' and (e.get('callee') or '').endswith('::add') and e['args']:
+            r = strip_conv(e['args'][0])
+            if not (r.get('k') == 'call' and r.get('op') == '>>'):
+                continue
+            ops = ([r['obj']] if r.get('obj') is not None else []) + list(r['args'])
+            lhs = syms(ops[0])
+            rhs_e = strip_conv(ops[1])
+            if rhs_e.get('k') == 'ref' and 'vector' in (rhs_e.get('cty') or ''):
+                continue      # MACRO >> sym : the pattern itself
+            prods.setdefault(lhs[0], []).append(syms(ops[1]))
+    return prods
+
+
+def c09_detector_grammar(rep, mm):
+    from . import grammar as G
+    H = rep.rule('C09.h', 'each slot kind of the detector grammar derives only complete identifiers / integers / values / argument lists / '
+                          'statement sequences of the language (bounded language inclusion in the reference grammar)', floor=5)
+    prods = detector_grammar(mm)
+    start, ref = G.load_reference()
+    ref = dict(ref)
+    # reference non-terminals for the slot kinds
+    ref['<ID>'] = [['ID']]
+    ref['<INT>'] = [['INT']]
+    ref['<ARGS>'] = [['VALUE', 'MVARGS']]
+    slot_ref = {'<ID>': '<ID>', '<INT>': '<INT>', '<VALUE>': 'VALUE', '<ARGS>': '<ARGS>', '<P>': 'P'}
+    N = 8
+    dprods = {k: [[s for s in alt] for alt in alts] for k, alts in prods.items()}
+    for slot, rnt in slot_ref.items():
+        if slot not in dprods:
+            H.unknown('slot %s' % slot, 'no productions found for this slot kind in the detector grammar')
+            continue
+        got = enumerate_cfg(slot, dprods, N)
+        want = G.enumerate_grammar(rnt, ref, N)
+        extra = sorted(got - want, key=lambda s: (len(s), s))
+        H.check(not extra and len(got) > 0, 'slot %s' % slot, '%d sentence(s) up to %d tokens, all derivable from %s of the language (%d)' % (len(got), N, rnt, len(want)),
+                'the detector lets slot %s match %s, which is not a complete %s of the language' % (slot, ' '.join(extra[0]) if extra else '(nothing)', rnt),
+                W(mm.facts.fn('MacroDetector::MacroDetector'), None, mm.facts), witness={'tokens': list(extra[0])} if extra else None)
+    rep.extra['detector_productions'] = sum(len(v) for v in dprods.values())
+
+
+def enumerate_cfg(start, prods, n):
+    """sentences of length <= n of an arbitrary (possibly left-recursive) CFG: fixpoint over bounded yields"""
+    nts = set(prods)
+    yields = {k: set() for k in nts}
+    changed = True
+    while changed:
+        changed = False
+        for a, alts in prods.items():
+            for alt in alts:
+                partial = {()}
+                for s in alt:
+                    nxt = set()
+                    opts = yields[s] if s in nts else {(s,)}
+                    for p in partial:
+                        for y in opts:
+                            if len(p) + len(y) <= n:
+                                nxt.add(p + y)
+                    partial = nxt
+                    if not partial:
+                        break
+                new = partial - yields[a]
+                if new:
+                    yields[a] |= new
+                    changed = True
+    return yields[start]
